@@ -51,19 +51,19 @@ func bound(tier string) string {
 	n := 0
 	enumerate(tier, func(string) { n++ })
 	if tier == engine.Thorough {
-		return fmt.Sprintf("%d cases: ~D ~B ~O ~X x mincol{-,0,1,5,12,27,40} x padchar{-,'0,'.} x commachar{-,'_} x interval{-,1,2,3,4,7} x 4 modifier sets x 29 integers "+
+		return fmt.Sprintf("%d cases: ", n) + ("~D ~B ~O ~X x mincol{-,0,1,5,12,27,40} x padchar{-,'0,'.} x commachar{-,'_} x interval{-,1,2,3,4,7} x 4 modifier sets x 29 integers "+
 			"(0 .. +-10^30, both sides of 2^63); ~nR for 9 radixes x mincol x padchar x commachar x interval x modifiers; v/# parameter forms; every printable ASCII "+
 			"character as a quoted parameter; ~A ~S x mincol x colinc x minpad x padchar x modifiers x 21 objects; ~R and ~:R for every n in -20000..400000 and 15 "+
 			"multiples of every 10^k below 10^66; ~@R ~:@R for every n in 1..4999; ~C x 15 characters x 4 forms; ~% ~& ~~ counts 0..3 after 5 prefixes; ~T "+
 			"absolute/relative x colnum x colinc x 5 prefixes; ~* (21 forms) at 4 positions; ~P; ~[ (index -1..4, ~:;, #, v, ~:[, ~@[, nested); ~{ (4 forms x max "+
 			"count x lists 0..4 x nested lists, ~:}); ~( (4 forms, nested); ~? ~@?; all compositions of <= 4 items over a 20-item menu; 16 block wrappers around "+
-			"every 1 and 2 items and around every wrapped item (blocks inside blocks)", n)
+			"every 1 and 2 items and around every wrapped item (blocks inside blocks)")
 	}
-	return fmt.Sprintf("%d cases: ~D ~B ~O ~X x mincol{-,0,5,12} x padchar{-,'0,'.} x commachar{-,'_} x interval{-,1,3,4} x 4 modifier sets x 15 integers (0 .. +-10^20, "+
+	return fmt.Sprintf("%d cases: ", n) + ("~D ~B ~O ~X x mincol{-,0,5,12} x padchar{-,'0,'.} x commachar{-,'_} x interval{-,1,3,4} x 4 modifier sets x 15 integers (0 .. +-10^20, "+
 		"both sides of 2^63); ~nR for 6 radixes x mincol x padchar x commachar x interval x modifiers; v/# parameter forms; every printable ASCII character as a "+
 		"quoted parameter; ~A ~S x mincol x colinc x minpad x padchar x modifiers x 21 objects; ~R and ~:R for every n in -1000..20000 and 6 multiples of every "+
 		"10^k below 10^66; ~@R ~:@R for every n in 1..4999; ~C x 15 characters x 4 forms; ~% ~& ~~ counts 0..3 after 5 prefixes; ~T absolute/relative x colnum "+
 		"x colinc x 5 prefixes; ~* (21 forms) at 4 positions; ~P; ~[ (index -1..4, ~:;, #, v, ~:[, ~@[, nested); ~{ (4 forms x max count x lists 0..4 x nested "+
 		"lists, ~:}); ~( (4 forms, nested); ~? ~@?; all compositions of <= 4 items over a 14-item menu; 16 block wrappers around every 1 and 2 items and around "+
-		"every wrapped item (blocks inside blocks)", n)
+		"every wrapped item (blocks inside blocks)")
 }
